@@ -122,3 +122,46 @@ func Harness_C10_stream_write() {
 	}
 	verif_Cover("C10.sw.done")
 }
+
+// Frames larger than the reader's buffer (and larger than the buffer sizes a reader might
+// special-case) read back in pieces: several data frames of boundary sizes, read with a fixed
+// buffer size; every byte arrives once and in order, then EOF.
+func Harness_C10_stream_read_large() {
+	var own [16]byte
+	for i := range own {
+		own[i] = byte('a' + i)
+	}
+	sizes := []int{4097, 5000, 8192, 33000, MaxFrameSize}
+	n1 := sizes[verif_Choose(len(sizes))]
+	n2 := []int{1, 4096, 5123}[verif_Choose(3)]
+	bs := []int{1000, 4096, 32 * 1024}[verif_Choose(3)]
+	mk := func(n int, seed byte) []byte {
+		d := make([]byte, n)
+		for i := range d {
+			d[i] = byte(i)*3 + seed
+		}
+		d[0], d[n-1] = verif_Byte(), verif_Byte()
+		return d
+	}
+	d1, d2 := mk(n1, 1), mk(n2, 7)
+	wire := &verifSink{}
+	verif_Assert("C10.srl.encode", WriteFrameToWriter(wire, own, FrameTypeData, d1) == nil && WriteFrameToWriter(wire, own, FrameTypeData, d2) == nil &&
+		WriteFrameToWriter(wire, own, FrameTypeEOF, nil) == nil)
+	want := append(append([]byte{}, d1...), d2...)
+	tcp := verif_TCPConn(&verifReader{Data: wire.Buf}, &verifSink{})
+	fs := NewFrameStream(&Conn{tcpConn: tcp}, own)
+	var got []byte
+	p := make([]byte, bs)
+	for r := 0; r < 200; r++ {
+		n, err := fs.Read(p)
+		got = append(got, p[:n]...)
+		if err != nil {
+			verif_Assert("C10.srl.err_is_eof", err == io.EOF)
+			break
+		}
+		verif_Assert("C10.srl.progress", n > 0)
+	}
+	verif_Assert("C10.srl.length", len(got) == len(want))
+	verif_Assert("C10.srl.content", verif_BytesEq(got, want))
+	verif_Cover("C10.srl.done")
+}
